@@ -29,7 +29,10 @@ ASSUMPTIONS = [
 
 VALID = ["one_to_one", "many_to_one", "one_to_many", "many_to_many"]
 NEEDS = {"one_to_one": (True, True), "many_to_one": (False, True), "one_to_many": (True, False), "many_to_many": (False, False)}
-INVALID = ["", None, "MANY_TO_ONE", "one-to-one", "one_to_one ", "many", 0, True, "one_to_many_to_one"]
+INVALID = ["", None, "MANY_TO_ONE", "one-to-one", "one_to_one ", "many", 0, True, "one_to_many_to_one",
+           # near misses of every documented value: surrounding whitespace / newlines, other case, bytes, containers
+           "one_to_one\n", "many_to_one\n", "one_to_many\n", "many_to_many\n", "\nmany_to_one", "many_to_many\r\n", " many_to_many",
+           "one_to_one\t", "One_To_One", b"one_to_one", ("one_to_one",), ["many_to_many"], "one_to_one\x00", "many_to_many_"]
 KINDS = ["inner_join", "join", "full_join"]
 
 U1 = [(0,), (1,), (2,), (3,), (None,)]
